@@ -3534,6 +3534,7 @@ class XonshParser(Parser):
         self._reset(mark)
         return None
 
+    @memoize
     def invalid_named_expression(self) -> None:
         # invalid_named_expression: expression ':=' expression | NAME '=' bitwise_or !('=' | ':=') | !(plist | ptuple | genexp | 'True' | 'None' | 'False') bitwise_or '=' bitwise_or !('=' | ':=')
         mark = self._mark()
